@@ -242,7 +242,8 @@ where
     fn resolve_ref(&self, r: PlainRef, flags: ParseFlags, resolve: &impl Resolve) -> Result<Primitive> {
         match self.changes.get(&r.id) {
             Some((p, _)) => Ok((*p).clone()),
-            None => match t!(self.refs.get(r.id)) {
+            // an object number beyond the cross-reference table is, like a gap inside it, an undefined object
+            None => match self.refs.get(r.id).unwrap_or(XRef::Invalid) {
                 XRef::Raw {pos, ..} => {
                     let mut lexer = Lexer::with_offset(t!(self.backend.read(self.start_offset + pos ..)), self.start_offset + pos);
                     let p = t!(parse_indirect_object(&mut lexer, resolve, self.decoder.as_ref(), flags)).1;
